@@ -136,10 +136,15 @@ Fixpoint mf_skip (p : lzp) (n : nat) (d : lzd) (tr : list wev) : outcome (lzd * 
 Definition process_pending (p : lzp) (d : lzd) (tr : list wev) : outcome (lzd * list wev) :=
   if (0 <? pending_size d) && (read_pos d <? read_limit d) then
     do rp <- ck_i32 (read_pos d - as_i32 (pending_size d));
-    mf_skip p (Z.to_nat (pending_size d))
-            (mkLzd rp (read_limit d) (finishing d) (write_pos d) 0) tr
-    (* debug_assert!(pending_size < old_pending) is a consequence, see process_pending_spec *)
+    do r <- mf_skip p (Z.to_nat (pending_size d))
+                    (mkLzd rp (read_limit d) (finishing d) (write_pos d) 0) tr;
+    (* debug_assert!(self.pending_size <= old_pending)  — repaired; the original `<` is
+       [pending_assert_old], refuted by process_pending_strict_assert_refuted *)
+    if pending_size d <? pending_size (fst r) then Panic P_ASSERT else Ok r
   else Ok (d, tr).
+
+(* the assertion as it was: debug_assert!(self.pending_size < old_pending) *)
+Definition pending_assert_old (old_pending new_pending : Z) : bool := new_pending <? old_pending.
 
 (* set_preset_dict(dict_size, preset_dict) with preset_dict.len() = plen *)
 Definition set_preset_dict (p : lzp) (dict plen : Z) (d : lzd) (tr : list wev) : outcome (lzd * list wev) :=
